@@ -211,8 +211,10 @@ class ReedMullerCodeEncoder(LinearBlockCodeEncoder):
                 set_E = torch.tensor([i for i in range(m) if i not in indices], dtype=torch.int64)
 
                 # Calculate the components
-                set_S = torch.matmul(binary_vectors[ell], torch.pow(2, set_I))
-                set_Q = torch.matmul(binary_vectors[m - ell], torch.pow(2, set_E))
+                # Evaluation vector v_i carries bit (m - 1 - i) of the position index
+                # (see _generate_evaluation_vectors), so variable i has weight 2^(m-1-i)
+                set_S = torch.matmul(binary_vectors[ell], torch.pow(2, m - 1 - set_I))
+                set_Q = torch.matmul(binary_vectors[m - ell], torch.pow(2, m - 1 - set_E))
 
                 # Form the partition
                 partition = set_S.unsqueeze(1) + set_Q.unsqueeze(0)
